@@ -9,7 +9,7 @@ HOME = os.path.dirname(os.path.dirname(os.path.abspath(__file__)))
 # id -> (technique, level text, level note, design ref)
 CHECKS = {
     "C01": (
-        "Hypothesis grammar-based generation of (Draft-6 schema, schema-directed values); differential oracle = own reference Draft-6 validator (three-valued), self-checked against jsonschema",
+        "Hypothesis grammar-based generation of (Draft-6 schema, schema-directed values); differential oracle = own reference Draft-6 validator (three-valued), self-checked against jsonschema; schemas parsed directly or through the documented loader; a late format-registration round",
         "Generated-input search: every (schema, value) verdict of the parsed element is compared with an independent Draft-6 reference validator; held on everything explored within depth<=4, containers<=4.",
         "Trusted: vlib/ref6.py reading of Draft 6 (cross-checked per case against jsonschema.Draft6Validator), comfortable number range, dialect-independent regex pool.",
         "DESIGN.md 4/C01",
@@ -57,7 +57,7 @@ CHECKS = {
         "DESIGN.md 4/C08",
     ),
     "C09": (
-        "Generated documents x PYTHONHASHSEED values x process instances; differential oracle: byte equality of generated module, JSON dump and class names across subprocesses (covering set of hash seeds + derived seeds)",
+        "Generated documents x PYTHONHASHSEED values x process instances; differential oracle: byte equality of generated module, JSON dump and class names across subprocesses (covering set of hash seeds + derived seeds; one process generates the batch in reverse order)",
         "Generated-input search across real subprocesses with different string-hash seeds, including the literal CLI.",
         "Trusted: finite set of hash seeds (covering for small string sets + seeds derived from VERIF_SEED).",
         "DESIGN.md 4/C09",
@@ -81,7 +81,7 @@ CHECKS = {
         "DESIGN.md 4/C12",
     ),
     "C13": (
-        "Hypothesis rule-based state machine interleaving reconfiguration steps and validation calls; model-based oracle: fresh element built from the model configuration",
+        "Hypothesis rule-based state machine interleaving reconfiguration steps and validation calls; model-based oracle: fresh element built from the model configuration, plus a ref6 second opinion settled by the same configuration in a new interpreter (subprocess)",
         "Stateful generated-history search: after each reconfiguration the real element and a freshly built element with the same configuration must agree on verdict and result.",
         "Trusted: recipe model of the configuration (vlib/recipes.py), only reconfiguration forms the docs name.",
         "DESIGN.md 4/C13",
@@ -99,13 +99,13 @@ CHECKS = {
         "DESIGN.md 4/C15",
     ),
     "C16": (
-        "Hypothesis rule-based state machine over registration histories with a dictionary model of the registry; generated UUIDs (all 2^128 via integers) and RFC 3339 timestamps from the ABNF",
+        "Hypothesis rule-based state machine over registration histories with a dictionary model of the registry; generated UUIDs (all 2^128 via integers) and RFC 3339 timestamps from the ABNF; short generated histories each run in a new interpreter (subprocess) against the same model",
         "Stateful model-based search for the registry semantics, generated-input search for the built-in checkers.",
         "Trusted: RFC 3339 section 5.6 grammar generator; registry saved/restored per case.",
         "DESIGN.md 4/C16",
     ),
     "C17": (
-        "Hypothesis generation of recipe pairs (identical builds / one-point mutants / parse round trips) x values aimed at the mutation; oracle: reflexive, symmetric, copies equal, == implies same verdicts and same alpha-normalised JSON",
+        "Hypothesis generation of recipe pairs (identical builds / one-point mutants / parse round trips) x values aimed at the mutation; oracle: reflexive, symmetric, copies equal, == implies same verdicts and same alpha-normalised JSON; variants of one titled schema at several positions of a document vs independent parses",
         "Generated-input search over element pairs differing in one keyword, literal, property attribute or element class.",
         "Trusted: alpha normalisation (inline refs, drop class-derived titles); type-faithful JSON comparison.",
         "DESIGN.md 4/C17",
